@@ -17,6 +17,15 @@ def run(c):
     observer_design.run_replay(c, "C04")
     b = 2 if c.thorough else 1
     fams = [("delivery", oe.fam_delivery(), b), ("removal", oe.fam_removal()[:6] + oe.fam_reentrant_unschedule(), b)]
+    # one path watched under several identities (recursive flag, filters incl. a base class, follow_symlink, spellings):
+    # every event an emitter queues reaches the handlers of ITS watch
+    keys = [p for p in oe.fam_watch_keys(3) if any(op[0] == "start" for op in p["threads"]["app1"])]
+    if not c.thorough:
+        import random
+
+        random.Random(c.seed).shuffle(keys)
+        keys = keys[:200]
+    fams.append(("watch identities on one path", keys, None))
     oe.run_families(c, "C04", fams, bound=b, random_n=3000 if c.thorough else 300)
     c.cov["rule"] = ("executions of the real BaseObserver: bounded-preemption DFS (b=%d) on the delivery/removal program "
                      "families + random programs under random schedules; distinct = distinct black-box traces" % b)
